@@ -3,43 +3,43 @@
    GENERATED translation (Gen/IsoGen.v) of the methods of pointisotherm.py / baseisotherm.py; they call the
    generated converters of C01. Property theorems only, each closed by `exact` + Print Assumptions. *)
 From Coq Require Import Reals Lra QArith ZArith String List Bool.
-From PG Require Import Lib.Num Lib.Py Gen.UnitsGen1 Units.AdsOracle Gen.UnitsGen2 Units.UnitsSpec Units.C01Theorems
+From PG Require Import Lib.Num Lib.Py Gen.UnitsGen1 Units.AdsOracle Gen.UnitsGen2 Units.UnitsSpec Units.LoadingPhys Units.C01Theorems
   Iso.IsoState Gen.IsoGen Iso.IsoSpec Iso.ConvPressure Iso.ConvLoading Iso.ConvMaterial Iso.ConvMaterialFrac Iso.C02Theorems.
 Import ListNotations.
 Open Scope R_scope.
 
 (* single steps on a well-labelled state: new labels = the requested representation, data = old data times the SI factor,
    nothing else touched (branch marks, the other column, adsorbate, material); caches reset *)
-Theorem pressure_step : forall psat M rml rmg T tk rl rm m cp cl cb li pi vb (rp rp' : prep),
-  0 < psat -> kelvin_of tk T <> 0 ->
-  convert_pressure RNum (mk_state rp rl rm tk T (ads_full psat M rml rmg) m cp cl cb li pi) (p_mode rp') (p_unit rp') vb
-  = SOk (if prep_eqb rp' rp then mk_state rp rl rm tk T (ads_full psat M rml rmg) m cp cl cb li pi
-         else mk_state rp' rl rm tk T (ads_full psat M rml rmg) m
+Theorem pressure_step : forall (a : adsorbate RNum) psat T tk rl rm m cp cl cb li pi vb (rp rp' : prep),
+  a_psat_Pa a (Some (kelvin_of tk T)) = Some psat -> 0 < psat -> kelvin_of tk T <> 0 ->
+  convert_pressure RNum (mk_state rp rl rm tk T a m cp cl cb li pi) (p_mode rp') (p_unit rp') vb
+  = SOk (if prep_eqb rp' rp then mk_state rp rl rm tk T a m cp cl cb li pi
+         else mk_state rp' rl rm tk T a m
                 (map (spec_conv (p_canon psat rp) (p_canon psat rp')) cp) cl cb None None).
 Proof. exact convert_pressure_step. Qed.
 Print Assumptions pressure_step.
-Theorem loading_step : forall psat M rml rmg T tk rp rm m cp cl cb li pi vb (rl rl' : lrep),
-  0 < M -> 0 < rml -> 0 < rmg ->
-  convert_loading RNum (mk_state rp rl rm tk T (ads_full psat M rml rmg) m cp cl cb li pi) (l_basis rl') (l_unit rl') vb
-  = SOk (if lrep_eqb rl' rl then mk_state rp rl rm tk T (ads_full psat M rml rmg) m cp cl cb li pi
-         else mk_state rp rl' rm tk T (ads_full psat M rml rmg) m cp
+Theorem loading_step : forall (a : adsorbate RNum) M rml rmg T tk rp rm m cp cl cb li pi vb (rl rl' : lrep),
+  ads_at a (Some (kelvin_of tk T)) M rml rmg -> 0 < M -> 0 < rml -> 0 < rmg ->
+  convert_loading RNum (mk_state rp rl rm tk T a m cp cl cb li pi) (l_basis rl') (l_unit rl') vb
+  = SOk (if lrep_eqb rl' rl then mk_state rp rl rm tk T a m cp cl cb li pi
+         else mk_state rp rl' rm tk T a m cp
                 (map (spec_conv (l_canon M rml rmg rm rl) (l_canon M rml rmg rm rl')) cl) cb None None).
 Proof. exact convert_loading_step. Qed.
 Print Assumptions loading_step.
-Theorem material_step_physical_loading : forall psat M rml rmg dens mm T tk rp cp cl cb li pi vb (rl : lrep) (rm rm' : mrep),
+Theorem material_step_physical_loading : forall (a : adsorbate RNum) dens mm T tk rp cp cl cb li pi vb (rl : lrep) (rm rm' : mrep),
   0 < dens -> 0 < mm -> l_is_phys rl = true ->
-  convert_material RNum (mk_state rp rl rm tk T (ads_full psat M rml rmg) (mat_full dens mm) cp cl cb li pi) (m_basis rm') (m_unit rm') vb
-  = SOk (if mrep_eqb rm' rm then mk_state rp rl rm tk T (ads_full psat M rml rmg) (mat_full dens mm) cp cl cb li pi
-         else mk_state rp rl rm' tk T (ads_full psat M rml rmg) (mat_full dens mm) cp
+  convert_material RNum (mk_state rp rl rm tk T a (mat_full dens mm) cp cl cb li pi) (m_basis rm') (m_unit rm') vb
+  = SOk (if mrep_eqb rm' rm then mk_state rp rl rm tk T a (mat_full dens mm) cp cl cb li pi
+         else mk_state rp rl rm' tk T a (mat_full dens mm) cp
                 (map (spec_conv (m_canon dens mm rm') (m_canon dens mm rm)) cl) cb None None).
 Proof. exact convert_material_step_phys. Qed.
 Print Assumptions material_step_physical_loading.
-Theorem material_step_fraction_loading : forall psat M rml rmg dens mm T tk rp cp cl cb li pi vb (rl : lrep) (rm rm' : mrep),
-  0 < dens -> 0 < mm -> 0 < M -> 0 < rml -> 0 < rmg -> l_is_phys rl = false ->
-  convert_material RNum (mk_state rp rl rm tk T (ads_full psat M rml rmg) (mat_full dens mm) cp cl cb li pi) (m_basis rm') (m_unit rm') vb
-  = SOk (if mrep_eqb rm' rm then mk_state rp rl rm tk T (ads_full psat M rml rmg) (mat_full dens mm) cp cl cb li pi
-         else if same_mbasis rm' rm then mk_state rp rl rm' tk T (ads_full psat M rml rmg) (mat_full dens mm) cp cl cb li pi
-         else mk_state rp rl rm' tk T (ads_full psat M rml rmg) (mat_full dens mm) cp
+Theorem material_step_fraction_loading : forall (a : adsorbate RNum) M rml rmg dens mm T tk rp cp cl cb li pi vb (rl : lrep) (rm rm' : mrep),
+  ads_at a (Some (kelvin_of tk T)) M rml rmg -> 0 < dens -> 0 < mm -> 0 < M -> 0 < rml -> 0 < rmg -> l_is_phys rl = false ->
+  convert_material RNum (mk_state rp rl rm tk T a (mat_full dens mm) cp cl cb li pi) (m_basis rm') (m_unit rm') vb
+  = SOk (if mrep_eqb rm' rm then mk_state rp rl rm tk T a (mat_full dens mm) cp cl cb li pi
+         else if same_mbasis rm' rm then mk_state rp rl rm' tk T a (mat_full dens mm) cp cl cb li pi
+         else mk_state rp rl rm' tk T a (mat_full dens mm) cp
                 (map (spec_conv (l_canon_phys M rml rmg (l_of_m rm)) (l_canon_phys M rml rmg (l_of_m rm')))
                    (map (spec_conv (m_canon dens mm rm') (m_canon dens mm rm)) cl)) cb None None).
 Proof. exact convert_material_step_frac. Qed.
@@ -77,19 +77,21 @@ Print Assumptions combined_conversion_is_sequence.
    partial with respect to the property's quantifier, which also admits calls omitting the unit - see the refuted items *)
 Theorem history_direct_partial : forall psat M rml rmg dens mm TK,
   0 < psat -> 0 < M -> 0 < rml -> 0 < rmg -> 0 < dens -> 0 < mm -> TK <> 0 ->
-  forall (r0 : rs) (cp0 cl0 : list R) (cb : list bool) (T : R) (li pi : option cache) (ops : list op),
+  forall (r0 : rs) (cp0 cl0 : list R) (cb : list bool) (a : adsorbate RNum), ads_full_at a TK psat M rml rmg ->
+  forall (T : R) (li pi : option cache) (ops : list op),
   kelvin_of (r_k r0) T = TK ->
-  let s0 := mk_state (r_p r0) (r_l r0) (r_m r0) (r_k r0) T (ads_full psat M rml rmg) (mat_full dens mm) cp0 cl0 cb li pi in
+  let s0 := mk_state (r_p r0) (r_l r0) (r_m r0) (r_k r0) T a (mat_full dens mm) cp0 cl0 cb li pi in
   all_ok s0 ops /\
-  Rep psat M rml rmg dens mm TK r0 cp0 cl0 cb (fold_left rs_step ops r0) (run_ops s0 ops) /\
+  Rep psat M rml rmg dens mm TK r0 cp0 cl0 cb a (fold_left rs_step ops r0) (run_ops s0 ops) /\
   valid_labels (run_ops s0 ops) = true.
 Proof. exact history_direct. Qed.
 Print Assumptions history_direct_partial.
 Theorem history_back_restores_partial : forall psat M rml rmg dens mm TK,
   0 < psat -> 0 < M -> 0 < rml -> 0 < rmg -> 0 < dens -> 0 < mm -> TK <> 0 ->
-  forall (r0 : rs) (cp0 cl0 : list R) (cb : list bool) (T : R) (li pi : option cache) (ops : list op),
+  forall (r0 : rs) (cp0 cl0 : list R) (cb : list bool) (a : adsorbate RNum), ads_full_at a TK psat M rml rmg ->
+  forall (T : R) (li pi : option cache) (ops : list op),
   kelvin_of (r_k r0) T = TK ->
-  let s0 := mk_state (r_p r0) (r_l r0) (r_m r0) (r_k r0) T (ads_full psat M rml rmg) (mat_full dens mm) cp0 cl0 cb li pi in
+  let s0 := mk_state (r_p r0) (r_l r0) (r_m r0) (r_k r0) T a (mat_full dens mm) cp0 cl0 cb li pi in
   let back := [OpP (r_p r0); OpM (r_m r0); OpL (r_l r0); OpT (r_k r0)] in
   col_p (run_ops s0 (ops ++ back)%list) = cp0 /\ col_l (run_ops s0 (ops ++ back)%list) = cl0
   /\ col_branch (run_ops s0 (ops ++ back)%list) = cb.
